@@ -817,7 +817,6 @@ func (cc *Conn) processResponse(reqType message.Type, reqMessageID int32, w *res
 }
 
 func (cc *Conn) handleReq(w *responsewriter.ResponseWriter[*Conn], req *pool.Message) {
-	defer cc.inactivityMonitor.Notify()
 	reqMid := req.MessageID()
 
 	// The same message ID can not be handled concurrently
